@@ -164,3 +164,24 @@ Proof.
   exists e_d19, [(SName 7, JInt 1)], []. vm_compute. repeat split; congruence.
 Qed.
 Print Assumptions C01_transparency_refuted_D19.
+
+(** D4: an Option whose domain is itself an option.  The domain expression's key ALLOWED is read by
+    the evaluation and reported by no keys(): {A:1, ALLOWED:[1,2]} stores 1 under the fingerprint
+    {A:1}; {A:1, ALLOWED:[5]} is served 1 although the cache-free evaluation fails the domain
+    check.  (The expression is inside [frag]; what excludes it from the theorems is [clean_at].) *)
+Definition kL : key := [SName 13].
+Definition e_d4 : expr := EOption kA None (Some (EOption kL None None)).
+
+Theorem C01_transparency_refuted_D4 :
+  exists e o o',
+    frag e = true /\
+    let '(r1, s1, _) := evalC (ECached (CMem 1) e) o [] in
+    let '(r2, _, _) := evalC (ECached (CMem 1) e) o' s1 in
+    r1 = Ok (VJ (JInt 1)) /\ r2 = Ok (VJ (JInt 1)) /\
+    fst (fst (evalN u0 10 e o' tt)) = Err CDomain true /\
+    clean_at u0 10 e o = false.
+Proof.
+  exists e_d4, [(SName 7, JInt 1); (SName 13, JList [JInt 1; JInt 2])], [(SName 7, JInt 1); (SName 13, JList [JInt 5])].
+  vm_compute. repeat split; congruence.
+Qed.
+Print Assumptions C01_transparency_refuted_D4.
